@@ -7,6 +7,7 @@ import (
 	"os"
 	"os/exec"
 	"path/filepath"
+	"sync"
 	"testing"
 	"time"
 
@@ -29,6 +30,33 @@ type Case struct {
 	Procs     int    `json:"gomaxprocs"`
 	LogEvents bool   `json:"log_events"`
 	YieldSeed int    `json:"yield_seed"` // only meaningful for the instrumented binary
+	// Live: (pipe only) stdin stays open; after each chunk the harness waits until those bytes have
+	// come out on stdout and reached the record file before it sends the next chunk.
+	Live bool `json:"live"`
+}
+
+type lockedBuf struct {
+	mu sync.Mutex
+	b  []byte
+}
+
+func (l *lockedBuf) Write(p []byte) (int, error) {
+	l.mu.Lock()
+	l.b = append(l.b, p...)
+	l.mu.Unlock()
+	return len(p), nil
+}
+
+func (l *lockedBuf) Len() int {
+	l.mu.Lock()
+	defer l.mu.Unlock()
+	return len(l.b)
+}
+
+func (l *lockedBuf) Bytes() []byte {
+	l.mu.Lock()
+	defer l.mu.Unlock()
+	return append([]byte{}, l.b...)
 }
 
 func content(c Case) []byte {
@@ -84,9 +112,11 @@ func check(c Case, o *stats.Obs) error {
 	if os.Getenv("VERIF_INSTRUMENTED") != "" {
 		cmd.Env = append(cmd.Env, fmt.Sprintf("VERIF_YIELD=%d:2:300:1", c.YieldSeed+1))
 	}
-	var stdout, stderr bytes.Buffer
+	var stdout lockedBuf
+	var stderr bytes.Buffer
 	cmd.Stdout, cmd.Stderr = &stdout, &stderr
 	var feed func()
+	withheld := make(chan string, 1)
 	if c.Pipe {
 		w, err := cmd.StdinPipe()
 		if err != nil {
@@ -105,6 +135,23 @@ func check(c Case, o *stats.Obs) error {
 				k++
 				w.Write(input[pos : pos+n])
 				pos += n
+				if c.Live && k <= 12 {
+					sent := pos
+					if !appsup.WaitFor(5*time.Second, func() bool { return stdout.Len() >= sent }) {
+						select {
+						case withheld <- fmt.Sprintf("%d bytes were sent on stdin (last chunk %d bytes, stdin still open) but only %d have come out on stdout after 5 s", sent, n, stdout.Len()):
+						default:
+						}
+						break
+					}
+					if !appsup.WaitFor(5*time.Second, func() bool { return len(appsup.ReadLogs(logDir, "rtcmlogger.", ".rtcm")) >= sent }) {
+						select {
+						case withheld <- fmt.Sprintf("%d bytes were sent on stdin (stdin still open) but the record file holds only %d after 5 s", sent, len(appsup.ReadLogs(logDir, "rtcmlogger.", ".rtcm"))):
+						default:
+						}
+						break
+					}
+				}
 				if c.PauseUs > 0 && k <= 20 {
 					time.Sleep(time.Duration(c.PauseUs) * time.Microsecond)
 				}
@@ -140,6 +187,12 @@ func check(c Case, o *stats.Obs) error {
 		o.Key = "no-exit"
 		return fmt.Errorf("rtcmlogger did not exit within 60 s of end of input (%d bytes, pipe=%v)", len(input), c.Pipe)
 	}
+	select {
+	case msg := <-withheld:
+		o.Key = "withheld"
+		return fmt.Errorf("pass-through delayed while the input is still open: %s (len %d, chunks %v)", msg, c.Len, c.Chunks)
+	default:
+	}
 	if werr != nil {
 		o.Key = "exit-status"
 		return fmt.Errorf("rtcmlogger exited with %v; stderr: %s", werr, stderr.String())
@@ -156,6 +209,9 @@ func check(c Case, o *stats.Obs) error {
 	o.NonTrivial = len(input) > 0
 	if len(input) > 8096 {
 		o.Class(">1-block")
+	}
+	if c.Live && c.Pipe {
+		o.Class("live-pipe")
 	}
 	if c.Pipe {
 		o.Class("pipe")
@@ -188,6 +244,11 @@ func gen1(t *rapid.T) Case {
 			c.Chunks = append(c.Chunks, rapid.SampledFrom([]int{1, 100, 4096, 8095, 8096, 8097, 65536}).Draw(t, "chunk"))
 		}
 		c.PauseUs = rapid.SampledFrom([]int{0, 0, 50, 500}).Draw(t, "pause")
+		c.Live = rapid.IntRange(0, 2).Draw(t, "live") == 0
+		if c.Live {
+			// small first chunks: fragments shorter than any frame must pass straight through
+			c.Chunks = append([]int{rapid.IntRange(1, 5).Draw(t, "tinyChunk")}, c.Chunks...)
+		}
 	}
 	c.Procs = rapid.SampledFrom([]int{1, 2, 4, 16}).Draw(t, "procs")
 	c.LogEvents = rapid.IntRange(0, 3).Draw(t, "logEvents") == 0
